@@ -43,13 +43,16 @@ const objrootDef = `(define-fun subparent ((x Int)) Int (let ((e (div (- (- 0 x)
 func (c *FnCtx) frameCovers(fr *frame, con *Contract, ec *evalCtx) (covers []frameCover, all bool) {
 	for _, m := range con.Modifies {
 		if id, ok := m.Expr.(*ast.Ident); ok && id.Name == "heap" {
-			return nil, true
+			all = true
 		}
 	}
 	scratch := c.entry.clone()
 	prevHook := c.writeHook
 	defer func() { c.writeHook = prevHook }()
 	for _, m := range con.Modifies {
+		if id, ok := m.Expr.(*ast.Ident); ok && id.Name == "heap" {
+			continue
+		}
 		first := len(covers)
 		cond := ""
 		if m.Cond != nil {
@@ -101,17 +104,16 @@ func (c *FnCtx) frameCovers(fr *frame, con *Contract, ec *evalCtx) (covers []fra
 		c.writeHook = prevHook
 		setCond()
 	}
-	return covers, false
+	return covers, all
 }
 
 func (c *FnCtx) frameCheck(fr *frame, con *Contract, rst *State, ec *evalCtx) {
 	if rst.guard == "false" || os_noFrame {
 		return
 	}
+	// "modifies heap" allows any change of real memory; ghost fields are
+	// specification state and stay under the frame discipline
 	covers, all := c.frameCovers(fr, con, ec)
-	if all {
-		return
-	}
 	// guarded fields of monitor types change at scheduling points
 	if fr.fn.Pkg != nil {
 		pkg := fr.fn.Pkg.Pkg
@@ -129,7 +131,7 @@ func (c *FnCtx) frameCheck(fr *frame, con *Contract, rst *State, ec *evalCtx) {
 	}
 	var keys []string
 	for k := range c.heapSort {
-		if strings.HasPrefix(k, "H_") || strings.HasPrefix(k, "G_") {
+		if strings.HasPrefix(k, "G_") || strings.HasPrefix(k, "H_") && !all {
 			keys = append(keys, k)
 		}
 	}
